@@ -312,6 +312,101 @@ def iterAux {α} (v : List (List α)) : Nat → Nat → List (List α)
 def iter {α} (ra : RA α) (fast : Bool) : Except Err (List (List α)) :=
   bindE (arrayView ra fast) fun v => .ok (iterAux v (v.length + 1) 0)
 
+/-! ### the repaired arithmetic
+
+Second variant of the same functions, for the tree with the proposed repair of `ra.py` applied
+(`_slice_to_list` and `_get_iis_from_slices` use `slice.indices(len)`, empty selections are built with
+integer dtype, `__init__` keeps an empty `_data` and reshapes to `(n, L)`).  Which variant the staged
+code follows is established by the correspondence check (the harness probes a few reads, then
+compares every case with the variant it announced). -/
+
+/-- `_slice_to_list` after the repair: `range(*slice.indices(length))` -/
+def sliceToListF (s : PySlice) (n : Nat) : Except Err (List Int) :=
+  match s.indices n with
+  | none => .error .valueError
+  | some ix => .ok (ix.map Int.ofNat)
+
+/-- one row of `_get_iis_from_slices` after the repair: `np.arange(*slice.indices(lengths[num]))` -/
+def colRangeF (cs : PySlice) (lengths : List Nat) (num : Int) : Except Err (Int × List Int) :=
+  bindE (npIndex lengths num) fun len =>
+    match cs.indices len with
+    | none => .error .valueError
+    | some cix => .ok (num, cix.map Int.ofNat)
+
+/-- `_get_iis_from_slices` after the repair (`np.repeat`, never-empty `concatenate`) -/
+def getIisFromSlicesF (first : List Int) (cs : PySlice) (lengths : List Nat) :
+    Except Err (List (Int × Int) × List Nat) :=
+  bindE (mapE (colRangeF cs lengths) first) fun splits =>
+    .ok (splits.flatMap (fun p => p.2.map (fun j => (p.1, j))), splits.map (fun p => p.2.length))
+
+/-- `_get_iis_from_list` after the repair (`dtype=int`, `reshape(-1, 2)`): never fails -/
+def getIisFromListF (first second : List Int) : List (Int × Int) × List Nat :=
+  (first.flatMap (fun i => second.map (fun j => (i, j))), List.replicate first.length second.length)
+
+/-- `RaggedArray(flat, lengths=…)` after the repair: an empty flat array is kept -/
+def ofFlatF {α} (data : List α) (lengths : List Nat) : Except Err (RA α) :=
+  if lengths.sum ≠ data.length then .error .other else .ok ⟨data, lengths⟩
+
+def finishF {α} (ra : RA α) (sel : Except Err (List (Int × Int) × List Nat)) : Except Err (Res α) :=
+  bindE sel fun pl => bindE (gather ra pl.1) fun d => bindE (ofFlatF d pl.2) fun r => .ok (Res.ra r)
+
+/-- tuple without slices after the repair: `second` is broadcast whenever `first.size != 1`, empty
+index arrays are cast to int; a single row with an empty column list is still bounds-checked -/
+def pairedCoreF {α} (ra : RA α) (f s0 : List Int) : Except Err (Res α) :=
+  let s := if f.length ≠ 1 ∧ s0.length = 1 then List.replicate f.length (s0.headD 0) else s0
+  if f.length = s.length then bindE (gather ra (f.zip s)) fun d => .ok (Res.arr d)
+  else if f.length = 1 then
+    if s = [] then bindE (npIndex ra.lengths (f.headD 0)) fun _ => .ok (Res.arr [])
+    else bindE (gather ra (s.map fun j => (f.headD 0, j))) fun d => .ok (Res.arr d)
+  else if f = [] then .error .valueError
+  else .error .other
+
+def pairedF {α} (ra : RA α) (r c : Part) : Except Err (Res α) :=
+  pairedCoreF ra (idxArr r).1 (idxArr c).1
+
+/-- `_array` after the repair: `reshape((len(lengths), L) + cell shape)` on the fast path -/
+def arrayViewF {α} (ra : RA α) (fast : Bool) : Except Err (List (List α)) :=
+  if fast then
+    match ra.lengths with
+    | [] => partitionList ra.data ra.lengths
+    | L :: _ =>
+      if ra.lengths.length * L ≠ ra.data.length then .error .valueError
+      else .ok (chunks L ra.lengths.length ra.data)
+  else partitionList ra.data ra.lengths
+
+def getItemF {α} (ra : RA α) (fast : Bool) : Index → Except Err (Res α)
+  | .one (.int i) =>
+    bindE (arrayViewF ra fast) fun v => bindE (npIndex v i) fun row => .ok (Res.arr row)
+  | .one (.slice s) =>
+    bindE (arrayViewF ra fast) fun v => bindE (npSlice v s) fun sel => .ok (Res.ra (ofRows sel))
+  | .one (.list l _) =>
+    bindE (arrayViewF ra fast) fun v => bindE (npTake v l) fun sel => .ok (Res.ra (ofRows sel))
+  | .two (.slice rs) c =>
+    bindE (sliceToListF rs ra.lengths.length) fun first =>
+      match c with
+      | .slice cs => finishF ra (getIisFromSlicesF first cs ra.lengths)
+      | .int j => finishF ra (.ok (getIisFromListF first [j]))
+      | .list l _ => finishF ra (.ok (getIisFromListF first l))
+  | .two (.int i) (.slice cs) =>
+    bindE (arrayViewF ra fast) fun v => bindE (npIndex v i) fun row =>
+      bindE (npSlice row cs) fun sel => .ok (Res.arr sel)
+  | .two (.list l _) (.slice cs) =>
+    finishF ra (getIisFromSlicesF l cs ra.lengths)
+  | .two r c => pairedF ra r c
+  | .mask m =>
+    bindE (whereIdx m) fun ps =>
+      pairedF ra (.list (ps.map fun p => (p.1 : Int)) false) (.list (ps.map fun p => (p.2 : Int)) false)
+
+def lenF {α} (ra : RA α) (fast : Bool) : Except Err Nat :=
+  bindE (arrayViewF ra fast) fun v => .ok v.length
+
+def iterF {α} (ra : RA α) (fast : Bool) : Except Err (List (List α)) :=
+  bindE (arrayViewF ra fast) fun v => .ok (iterAux v (v.length + 1) 0)
+
+/-- the model of the staged code: `fixed = false` the tree as found, `true` with the repair -/
+def getItemV {α} (fixed : Bool) (ra : RA α) (fast : Bool) (idx : Index) : Except Err (Res α) :=
+  if fixed then getItemF ra fast idx else getItem ra fast idx
+
 /-! ### the specification: the same reads on a plain list of rows -/
 
 inductive SRes (α : Type)
